@@ -161,7 +161,7 @@ func (m *devModel) targetFieldPath(addr ssa.Value) (string, bool) {
 		}
 		break
 	}
-	if v == m.target && len(parts) > 0 {
+	if resolveArg(v) == m.target && len(parts) > 0 {
 		return strings.Join(parts, "."), true
 	}
 	return "", false
@@ -175,7 +175,7 @@ func ruleDevFields(c *Ctx) []Obligation {
 	}
 	var obs []Obligation
 	written := map[string]map[string][]*ssa.Store{} // kind → field → stores
-	eachInstr(m.fn, func(in ssa.Instruction) {
+	c.eachInstrDeep(m.fn, func(in ssa.Instruction) {
 		st, ok := in.(*ssa.Store)
 		if !ok {
 			return
@@ -184,7 +184,14 @@ func ruleDevFields(c *Ctx) []Obligation {
 		if !isT {
 			return
 		}
-		kinds := m.kindsAt(st.Block())
+		// a store in a private helper happens in the arm that calls the helper
+		at := st.Block()
+		if st.Parent() != m.fn {
+			if l := liftAll(st, m.fn, 0); len(l) == 1 {
+				at = l[0].Block()
+			}
+		}
+		kinds := m.kindsAt(at)
 		if kinds == nil {
 			kinds = map[string]bool{"(any)": true}
 		}
@@ -243,7 +250,7 @@ func ruleDevFields(c *Ctx) []Obligation {
 					if fl == nil || fl.Name() != leaf {
 						return false
 					}
-					return rootOf(base) != m.target
+					return resolveArg(rootOf(base)) != m.target
 				})
 				if fromSpec {
 					obs = append(obs, ok(R, con, pos, "derived from devSpec."+f))
@@ -275,7 +282,7 @@ func ruleDevFrame(c *Ctx) []Obligation {
 	entryT := c.MustNamed("yang", "Entry")
 	// every store through an *Entry-rooted path must be rooted at the target
 	nOther := 0
-	eachInstr(m.fn, func(in ssa.Instruction) {
+	c.eachInstrDeep(m.fn, func(in ssa.Instruction) {
 		var addr ssa.Value
 		switch x := in.(type) {
 		case *ssa.Store:
@@ -288,7 +295,7 @@ func ruleDevFrame(c *Ctx) []Obligation {
 		if _, isAlloc := addr.(*ssa.Alloc); isAlloc {
 			return
 		}
-		root := rootOf(addr)
+		root := resolveArg(rootOf(addr))
 		if a, ok := root.(*ssa.Alloc); ok {
 			_ = a
 			return // local aggregates (varargs arrays, closures' cells)
@@ -371,6 +378,9 @@ func ruleDevFrame(c *Ctx) []Obligation {
 		cal := ci.Common().StaticCallee()
 		if cal == nil || !c.isRepoFn(cal) {
 			return
+		}
+		if h := helperOf(cal); h != nil && cal.Parent() == nil && c.inlineRoot(cal) == m.fn {
+			return // a private helper of the applier: its stores were judged above as the applier's own
 		}
 		for _, w := range c.WritesOf(cal) {
 			if !strings.HasPrefix(w.Root, "p") || !strings.HasPrefix(w.Field, "Entry.") && !strings.HasPrefix(w.Field, "map:Entry.") {
